@@ -3,6 +3,7 @@ package main
 // Verifier: per-function symbolic execution producing proof obligations.
 
 import (
+	"sync/atomic"
 	"fmt"
 	"go/ast"
 	"go/token"
@@ -92,12 +93,25 @@ type State struct {
 	epoch    int // number of havoc-all events so far
 	arank    int // allocation rank (monotone along a path)
 	eqs      map[string]*Term
+	eqs2     map[string]*Term // non-literal equalities: used only to key defined arrays by length
 	rewrite  func(*Term) *Term // normalisation of assumed quantified formulas
 	splits   []*Term           // boolean constants worth a case split in proofs (e.g. append capacity tests)
 	branches []*Term           // conditions assumed at control-flow forks (subset of pc)
 	locks    map[string]bool
 	defers   []*ast.CallExpr
 	dead     bool
+	snaps    []*snapshot // interior struct fields whose address was taken (modelled as a copy)
+}
+
+// snapshot: &p.f for a struct-typed field f stored by value in a heap struct.  Interior
+// pointers are not modelled; the address is that of a fresh copy, and at every return it
+// is an obligation that neither the copy nor the original was written since.
+type snapshot struct {
+	ref   *Term
+	t     types.Type
+	val   *Term          // value at the time the address was taken
+	expr  *ast.SelectorExpr
+	pos   token.Pos
 }
 
 func (s *State) clone() *State {
@@ -120,10 +134,17 @@ func (s *State) clone() *State {
 			n.eqs[k] = v
 		}
 	}
+	if len(s.eqs2) > 0 {
+		n.eqs2 = make(map[string]*Term, len(s.eqs2))
+		for k, v := range s.eqs2 {
+			n.eqs2[k] = v
+		}
+	}
 	n.splits = append([]*Term(nil), s.splits...)
 	n.branches = append([]*Term(nil), s.branches...)
 	n.pc = append([]*Term(nil), s.pc...)
 	n.defers = append([]*ast.CallExpr(nil), s.defers...)
+	n.snaps = append([]*snapshot(nil), s.snaps...)
 	return n
 }
 
@@ -141,6 +162,16 @@ func (s *State) assume1(t *Term, rw bool) {
 		for _, a := range t.Args {
 			s.assume1(a, rw)
 		}
+		return
+	}
+	// skolemise assumed existentials (also in the consequent of an implication): the
+	// witness becomes a constant of the path, which later goals can be instantiated with
+	if t.Op == "exists" && len(t.Binders) > 0 {
+		s.assume1(skolemise(t), rw)
+		return
+	}
+	if t.Op == "=>" && len(t.Args) == 2 && t.Args[1].Op == "exists" && len(t.Args[1].Binders) > 0 {
+		s.assume1(Implies(t.Args[0], skolemise(t.Args[1])), rw)
 		return
 	}
 	if t.isFalse() {
@@ -164,11 +195,24 @@ func (s *State) assume1(t *Term, rw bool) {
 				if len(as) < len(bs) || (len(as) == len(bs) && as < bs) {
 					a, b, as, bs = b, a, bs, as
 				}
-				if s.eqs == nil {
-					s.eqs = map[string]*Term{}
+				if s.eqs2 == nil {
+					s.eqs2 = map[string]*Term{}
 				}
-				if _, dup := s.eqs[as]; !dup {
-					s.eqs[as] = b
+				if _, dup := s.eqs2[as]; !dup {
+					s.eqs2[as] = b
+				}
+			}
+		} else if !a.IsLit && !b.IsLit && a.Sort == SInt && (isSpecApp(a) != isSpecApp(b)) && (len(a.Args) == 0 || len(b.Args) == 0) {
+			// x = f(args) for a variable x and a spec function f (typically a callee's result)
+			if isSpecApp(a) {
+				a, b = b, a
+			}
+			if b.Size() < 20 && !strings.Contains(b.String(), a.String()) {
+				if s.eqs2 == nil {
+					s.eqs2 = map[string]*Term{}
+				}
+				if _, dup := s.eqs2[a.String()]; !dup {
+					s.eqs2[a.String()] = b
 				}
 			}
 		} else if !a.IsLit && !b.IsLit && a.Sort == SInt && (isLenOfVar(a) != isLenOfVar(b)) {
@@ -177,11 +221,11 @@ func (s *State) assume1(t *Term, rw bool) {
 				a, b = b, a
 			}
 			if b.Size() < 40 && !strings.Contains(b.String(), a.String()) {
-				if s.eqs == nil {
-					s.eqs = map[string]*Term{}
+				if s.eqs2 == nil {
+					s.eqs2 = map[string]*Term{}
 				}
-				if _, dup := s.eqs[a.String()]; !dup {
-					s.eqs[a.String()] = b
+				if _, dup := s.eqs2[a.String()]; !dup {
+					s.eqs2[a.String()] = b
 				}
 			}
 		}
@@ -227,6 +271,10 @@ func isAtomTerm(t *Term) bool {
 	return false
 }
 
+func isSpecApp(t *Term) bool {
+	return strings.HasPrefix(t.Op, "spec.") && len(t.Args) > 0
+}
+
 func isLenOfVar(t *Term) bool {
 	return t.Op == "s.len" && len(t.Args) == 1 && len(t.Args[0].Args) == 0 && !t.Args[0].IsLit
 }
@@ -242,6 +290,22 @@ func (s *State) normInt(t *Term) *Term {
 			break
 		}
 		t = n
+	}
+	return t
+}
+
+// normKey: like normInt, also using the non-literal equalities; only for comparison keys.
+func (s *State) normKey(t *Term) *Term {
+	t = s.normInt(t)
+	if len(s.eqs2) == 0 || t.IsLit {
+		return t
+	}
+	for i := 0; i < 4; i++ {
+		n := replaceSub(t, s.eqs2, map[*Term]*Term{})
+		if n == t {
+			break
+		}
+		t = s.normInt(n)
 	}
 	return t
 }
@@ -325,6 +389,8 @@ type Oblig struct {
 // ---------------- verifier ----------------
 
 type Verifier struct {
+	zeroDecl       bool // declareVar is initialising a `var x T` zero value
+	bsNames        map[string]*Term // names of byte-string spec applications, by term
 	eng            *Engine
 	pkg            *packages.Package
 	info           *types.Info
@@ -1256,4 +1322,41 @@ func sortedProps(m map[string]bool) []string {
 	}
 	sort.Strings(out)
 	return out
+}
+
+// zeroGhost: a freshly allocated zero value of type t gets the default of every ghost
+// field declared on *t with a body (e.g. an empty bytes.Buffer holds no bytes).
+func (v *Verifier) zeroGhost(s *State, ref *Term, t types.Type) {
+	if t == nil {
+		return
+	}
+	want := types.TypeString(types.NewPointer(t), nil)
+	for _, gf := range v.eng.ghostFields {
+		if gf.Body == nil || len(gf.Params) != 1 {
+			continue
+		}
+		env := v.newEnv(v.pkg.Types).at(s, s)
+		pt := env.resolveTypeSafe(gf.Params[0].Type)
+		if pt == nil || types.TypeString(pt, nil) != want {
+			continue
+		}
+		rty := env.resolveType(gf.Result)
+		h := v.getHeap(s, "GF_"+gf.Name, SArr(SInt, env.sortOfC(rty)))
+		val := env.coerceTo(env.tr(gf.Body), rty)
+		if rty == bstrType {
+			val = CVal{env.bytesOf(val), bstrType}
+		}
+		s.assume(Eq(v.hsel(s, h, ref), val.T))
+	}
+}
+
+var skolemSeq int64
+
+func skolemise(t *Term) *Term {
+	m := map[string]*Term{}
+	for _, b := range t.Binders {
+		n := atomic.AddInt64(&skolemSeq, 1)
+		m[b.String()] = Const(fmt.Sprintf("sk!%d", n), b.Sort)
+	}
+	return t.Args[0].Subst(m)
 }
